@@ -119,8 +119,11 @@ pub fn gen(seed: u64) -> SpawnScenario {
             after.push(r.below(id));
         }
         // a no-op prefix makes every command string unique (the harness recognises tasks by it)
-        let cmd = format!(": p{}; {}", id, cmd);
-        probes.push(Probe { id, cmd, expect, term, files, rsp, after, subdir_out: r.pct(30) });
+        let subdir_out = r.pct(30);
+        let stamp = if subdir_out { format!("od/x{}/p{}.stamp", id % 2, id) } else { format!("p{}.stamp", id) };
+        // every command first creates its declared output, so that a success is recorded
+        let cmd = format!(": p{}; : > {}; {}", id, stamp, cmd);
+        probes.push(Probe { id, cmd, expect, term, files, rsp, after, subdir_out });
     }
     SpawnScenario {
         seed,
@@ -246,6 +249,7 @@ impl Host for SpawnHost {
 }
 
 pub struct SpawnResult {
+    /// (code, detail); codes starting with "c05-" belong to C05, all others to C16
     pub violations: Vec<(String, String)>,
     pub commands: u64,
     pub nested_windows: u64,
@@ -470,13 +474,65 @@ pub fn run(sc: &SpawnScenario, sandbox: &Sandbox) -> SpawnResult {
             }
         }
     }
-    SpawnResult { violations: v, commands: finished.len() as u64, nested_windows: shd.nested_runs, stats }
+    // ---- C05 on the real process path
+    let planned_fail: Vec<usize> = sc.probes.iter().filter(|p| p.term != 0 && finished.contains(&p.id)).map(|p| p.id).collect();
+    if code == 0 && !planned_fail.is_empty() {
+        v.push(("c05-exit0-after-failure".into(), format!("exit status 0 although the command(s) of {:?} exited non-zero / were killed by a signal", planned_fail)));
+    }
+    for p in &sc.probes {
+        if finished.contains(&p.id) {
+            let mut anc = p.after.clone();
+            let mut i = 0;
+            while i < anc.len() {
+                if let Some(ap) = sc.probes.iter().find(|q| q.id == anc[i]) {
+                    for a in &ap.after {
+                        if !anc.contains(a) {
+                            anc.push(*a);
+                        }
+                    }
+                }
+                i += 1;
+            }
+            if let Some(a) = anc.iter().find(|a| planned_fail.contains(a)) {
+                v.push(("c05-ran-below-failure".into(), format!("{:?} was started although its order-only ancestor p{} failed", p.cmd, a)));
+            }
+        }
+    }
+    drop(shd);
+    // second invocation: a failed / killed command was not recorded, so it must run again
+    let has_int = sc.probes.iter().any(|p| p.term == 2);
+    if !planned_fail.is_empty() && !has_int && v.iter().all(|x| !x.0.starts_with("spawn-panic")) {
+        let sh2 = Rc::new(RefCell::new(SShared::default()));
+        let mut args2: Vec<String> = vec!["-j".into(), "1".into()];
+        if sc.k.is_some() {
+            args2.extend(["-k".to_string(), "8".to_string()]);
+        }
+        let host2 = SpawnHost { sh: sh2.clone(), args: args2, rng: Rng::new(sc.sub ^ 0x5555), nested: false };
+        n2::verif::install(Box::new(host2));
+        IN_N2.with(|c| c.set(true));
+        let (_r2, _out2) = disk::capture(|| std::panic::catch_unwind(|| n2::run::run()));
+        while n2::verif::pending_tasks() > 0 {
+            let _ = std::panic::catch_unwind(|| n2::verif::run_pending_task(0));
+        }
+        drop(n2::verif::uninstall());
+        IN_N2.with(|c| c.set(false));
+        n2::verif::set_interrupted(false);
+        let started2: Vec<usize> = sh2.borrow().tee.iter().filter(|t| t.0 == 0).map(|t| t.1).collect();
+        *stats.entry("probe.spawn_second_invocation".into()).or_default() += 1;
+        for f in &planned_fail {
+            if !started2.contains(f) {
+                v.push(("c05-failed-command-recorded".into(), format!("p{} failed in the first invocation but the second invocation treats it as up to date", f)));
+            }
+        }
+    }
+    let nested = sh.borrow().nested_runs;
+    SpawnResult { violations: v, commands: finished.len() as u64, nested_windows: nested, stats }
 }
 
 pub fn to_vlines(seed: u64, r: &SpawnResult) -> Vec<VLine> {
     r.violations
         .iter()
-        .map(|(c, d)| VLine { seed, op: 0, prop: "C16".into(), code: c.clone(), detail: d.clone() })
+        .map(|(c, d)| VLine { seed, op: 0, prop: if c.starts_with("c05-") { "C05".into() } else { "C16".into() }, code: c.clone(), detail: d.clone() })
         .collect()
 }
 
